@@ -5,6 +5,7 @@ import MxModel.Generated.Tables
 
     reset | newmodel M | newspace M S NAME | newcells M S NAME 0|1
     newpandas M S NAME PATH csv|xl SHEET VAL | bind M S NAME VAL | del M S NAME
+    newspacerefs M S NAME N1=VAL,N2=VAL,…|-   (new_space(NAME, refs=…))   copyspace M SRC S NAME   (SRC.copy(model, NAME))
     update M OLD NEW | sheet M VAL SHEET | setpath M VAL PATH | delspec M VAL | close M | obs
 
 `S = 0` is the model itself; `SHEET = -` is `None`; `VAL` is `d<i>` (pandas), `p<i>` (other
@@ -115,11 +116,35 @@ def keyLine (ks : MxModel.IOKeys.St) (toks : List String) : Option (MxModel.IOKe
   | ["kobs"] => some (ks, " ".intercalate (ks.ios.map showKey))
   | _ => none
 
+def parseBinding? (s : String) : Option (String × Val) :=
+  match s.splitOn "=" with
+  | [n, v] => (parseVal? v).map (fun v => (n, v))
+  | _ => none
+
+def parseBindings? (s : String) : Option (List (String × Val)) :=
+  if s = "-" then some [] else (s.splitOn ",").mapM parseBinding?
+
+def showRes : Res → St × String
+  | (st', .ok ()) => (st', "ok")
+  | (st', .error e) => (st', "err " ++ showRej e)
+
+/-- composites (`Kernels/IOSpec.lean`, last section): a space created with references, a copy of a space -/
+def compositeLine (st : St) (toks : List String) : Option (St × String) :=
+  match toks with
+  | ["newspacerefs", m, s, name, bs] => do
+    some (showRes (runGuarded kw st (newSpaceRefsOps (← m.toNat?) (← s.toNat?) name (← parseBindings? bs))))
+  | ["copyspace", m, src, s, name] => do
+    some (showRes (copySpace kw st (← m.toNat?) (← src.toNat?) (← s.toNat?) name))
+  | _ => none
+
 def stepLine (st : St) (line : String) : St × String :=
   match (line.splitOn " ").filter (· ≠ "") with
   | ["reset"] => ({}, "ok")
   | ["obs"] => (st, observe st)
   | toks =>
+    match compositeLine st toks with
+    | some r => r
+    | none =>
     match parseOp toks with
     | none => (st, "bad-op")
     | some op =>
